@@ -13,6 +13,7 @@ every point individually (sub-checks (a)..(h) of the design).  The stop rule
 beyond "a node with <= count_ubound points is not split" is not asserted: the
 tree *shape* is read from the real tree and validated, never predicted.
 """
+import copy
 import itertools
 import math
 import sys
@@ -501,19 +502,46 @@ def fill_events(state, fam, dim):
     return evs
 
 
+_SCALARS = (int, float, str, bool, type(None))
+
+
+def _cp(v):
+    return v if isinstance(v, _SCALARS) else copy.deepcopy(v)
+
+
 def _snapshot(state):
+    """Complete snapshot of the real partitioner: every attribute of the partitioner object and of every
+    node except the structural links, so that hidden state (caches, flags) is restored too and snapshot
+    exploration stays equal to fresh execution whatever the implementation keeps."""
+    kp = state["kp"]
     return (
-        {p: dict(n.num_samples_in_compared_subtrees) for p, n in state["info"].items()},
+        {p: {k: (dict(v) if k == "num_samples_in_compared_subtrees" else _cp(v)) for k, v in n.__dict__.items() if k not in ("left", "right")}
+         for p, n in state["info"].items()},
         state["counts"].snapshot(),
         dict(state["filled"]),
+        {k: _cp(v) for k, v in kp.__dict__.items() if k not in ("node", "leaves")},
+        # the harness's own memo tables are path state too: along any explored path exactly the calls a fresh
+        # execution of that path makes are made, whatever hidden state the implementation keeps between calls
+        {k: set(state[k]) for k in ("seen_kl", "seen_df", "seen_dist") if k in state} if state.get("path_scoped_memo") else {},
     )
 
 
 def _restore(state, snap):
     for p, d in snap[0].items():
-        state["info"][p].num_samples_in_compared_subtrees = dict(d)
+        n = state["info"][p]
+        for k in [k for k in n.__dict__ if k not in ("left", "right") and k not in d]:
+            del n.__dict__[k]
+        for k, v in d.items():
+            n.__dict__[k] = dict(v) if k == "num_samples_in_compared_subtrees" else _cp(v)
     state["counts"].restore(snap[1])
     state["filled"] = dict(snap[2])
+    kp = state["kp"]
+    for k in [k for k in kp.__dict__ if k not in ("node", "leaves") and k not in snap[3]]:
+        del kp.__dict__[k]
+    for k, v in snap[3].items():
+        kp.__dict__[k] = _cp(v)
+    for k, v in snap[4].items():
+        state[k] = set(v)
 
 
 def enumerate_group(task, seed):
@@ -522,7 +550,7 @@ def enumerate_group(task, seed):
     t0 = time.time()
     cfg = task["cfg"]
     fam, dim, n, depth = cfg["family"], cfg["dim"], task["n"], task["depth"]
-    validate_every = task.get("validate_every", 4999 if cfg.get("plotly") == "full" else 997)
+    validate_every = task.get("validate_every", 499 if cfg.get("plotly") == "full" else 199)
     m = 4 if dim == 1 else 3
     vals = family(fam, m)[0]
     ctx = Ctx(seed)
@@ -552,9 +580,14 @@ def enumerate_group(task, seed):
             samples.append({"system": SYS.name, "cfg": jsonable(cfg), "events": jsonable(events), "last_obs": jsonable(obs[-1]), "nontrivial_events": nmarks})
         if validate_every and st["executions"] % validate_every == 1:
             obs2, v2 = run_path(SYS, cfg, events, seed)
-            if v2 is not None or jsonable(obs2) != jsonable(obs):
+            if v2 is not None:
+                # found by the fresh execution only; record() confirms twice more that it reproduces from scratch
+                st["violations_seen_only_by_fresh_execution"] += 1
+                record(v2, events)
+            elif jsonable(obs2) != jsonable(obs):
                 raise HarnessError("HARNESS-NONDET: snapshot exploration and fresh execution differ cfg=%r events=%r" % (cfg, events))
-            st["fresh_replays"] += 1
+            else:
+                st["fresh_replays"] += 1
 
     def dfs(state, evs, pos, events, obs, nmarks):
         for ev in evs:
@@ -589,6 +622,13 @@ def enumerate_group(task, seed):
         pts = [[vals[i] for i in cell] for cell in ms]
         bev = {"op": "build", "pts": pts}
         state = SYS.init(cfg)
+        # The memo tables (seen_kl / seen_df / seen_dist) skip repeated evaluations of kl_distance / to_plotly_dataframe
+        # for count vectors already verified: a pure-function assumption about those read-only calls.  It is validated
+        # by the fresh re-executions below, which make every call; a violation that only the fresh execution sees
+        # (implementation state hidden between read-only calls, e.g. a cache inside kl_distance) is recorded as a
+        # violation with the fresh path as its replayable witness.  A task may set path_scoped_memo to make the memo
+        # path state instead (exactly the calls of a fresh execution along every path; ~4x the cost).
+        state["path_scoped_memo"] = bool(task.get("path_scoped_memo"))
         ctx.marks = 0
         st["states"] += 1
         try:
